@@ -32,6 +32,10 @@ CHECKS = {
    text="The iteration intercept parks every scan request; the harness hands exactly the chosen batch (all 2- and 3-subsets of a 10-query alphabet in quick; all 4-subsets with every split into two successive batches and the 8- and 10-query batches in thorough) to the real doProcessIterations, on 4 datasets × {memory, disk, split}; every query's rows and error must equal its solo run; each batch runs 4 times because Go map order inside the combined callback is uncontrolled.",
    note="Arrival inside/outside the coalesce interval is modelled as the choice of batch composition; the coalescer's timer itself is not exercised. For LIMIT / failing consumers the row count is compared.",
    ref="§3 C17"),
+ "C14": dict(cat="model_checking", tech="explicit-state exploration of insert/clock/flush/restart sequences on the real DB with the virtual clock as an event",
+   text="All event sequences of the bound over late/boundary inserts on two keys, three clock advances, Flush, Flush×10 (guaranteeing a truncating flush) and Restart, for several retention/resolution ratios; after every event on every distinct state the four clauses of the property are checked against the list of accepted points through native, grouped, relative-range and wider-than-retention queries and the decoded storage (VerifDump).",
+   note="'Older' is strict (a point exactly at now - retention is accepted; its period may be dropped by the next flush since it is no longer inside the window, so values of periods ending at or before now - retention are only required to consist of accepted points). Virtual clock restarts at the model's now after Restart.",
+   ref="§3 C14"),
 }
 
 NOT_YET = {}
